@@ -21,7 +21,7 @@ EXTENDS Integers, Sequences, FiniteSets, TLC
 
 CONSTANTS PathVars,    \* number of path-variable positions addressed        (2)
           QueryParams, \* number of declared-query-parameter positions       (8)
-          BodyLeaves   \* number of base-body leaf positions                 (8)
+          BodyLeaves   \* number of base-body node positions                (12)
 
 At(kinds, n) == {k \o "@" \o ToString(i) : k \in kinds, i \in 1..n}
 
@@ -30,7 +30,7 @@ Dims == {"method", "path", "query", "range", "accept", "auth", "ctype", "lang", 
 Base == [method |-> "route", path |-> "normal", query |-> "absent", range |-> "absent", accept |-> "json",
          auth |-> "admin", ctype |-> "auto", lang |-> "absent", enc |-> "absent", body |-> "base"]
 
-PathKinds  == {"nosuch", "empty", "long", "nul", "unicode", "dotdot", "encslash", "quote", "space"}
+PathKinds  == {"nosuch", "empty", "long", "nul", "unicode", "dotdot", "encslash", "quote", "space", "pct"}
 QueryKinds == {"valid", "wrong", "empty", "dup", "huge", "flag", "e1", "e2", "e3", "e4"}
 BodyKinds  == {"null", "wrong", "missing", "huge", "neg", "nest", "weird"}
 
